@@ -284,6 +284,9 @@ class Replacer:
 
         path, filename = os.path.split(path)
         combined = os.path.normpath(os.path.join(self.base, path, filename))
+        if filename in ('', '.', '..') and not combined.endswith('/'):
+            # normpath drops what says that a directory is meant
+            combined += '/'
         # quote like pathname2url but keep escapes which are present already
         # and the characters RFC 3986 allows in a path unescaped
         path = urllib.parse.quote(
